@@ -188,21 +188,36 @@ def check(ctx):
             v |= c << (4 * piece[nm])
         return v
     want = sorted([pcv(), pcv(B_KNIGHT=1), pcv(B_BISHOP=1), pcv(W_KNIGHT=1), pcv(W_BISHOP=1)])
-    arr = [n for n in em.all_nodes() if n['k'] == 'VarDecl' and 'PieceCountVector' in n.get('t', '') and n.get('ext')]
-    got = None
-    if arr:
-        got = arr[0].get('val')
-        if got is None:
-            got = [x.get('cv') for x in kids(strip_casts(kids(arr[0])[0]))]
-    ctx.ob('C07.R3.whitelist', 'notEnoughMaterialPCV', got is not None and sorted(got) == want,
-           'the insufficient-material list evaluates to exactly {K-K, K-KN, K-KB, KN-K, KB-K} in the count-vector encoding (%s)' % got,
-           site=em.loc(arr[0]) if arr else em.loc())
-    finds = [n for n, cfid, nm in em.calls() if nm == 'std::find']
-    rets = [n for n in em.all_nodes() if n['k'] == 'ReturnStmt']
-    okf = len(finds) == 1 and len(rets) == 1 and canon(em, kids(finds[0])[3], inline=False) == 'get_pcv()' and \
-        strip_casts(kids(rets[0])[0]).get('op') == '=='
-    ctx.ob('C07.R3.membership', 'enough_material', okf,
-           'enough_material() is "the position\'s count vector is not in the list" (find(...) == end)', site=em.loc())
+    # decided form: the answer per count vector (a switch or an if chain over get_pcv() evaluates to a constant for each value)
+    from rules.cases import effects_under as _eu
+    answers = {}
+    try:
+        for v_ in want + [pcv(W_ROOK=1), pcv(W_KNIGHT=2), pcv(W_KNIGHT=1, B_KNIGHT=1), pcv(W_PAWN=1), pcv(B_BISHOP=1, W_BISHOP=1)]:
+            answers[v_] = _eu(em, kids(em.body), {'get_pcv()': v_, 'pcv': v_})
+    except AnalysisBroken:
+        answers = None
+    if answers is not None and all(r_ in (['return 0'], ['return 1']) for r_ in answers.values()):
+        wrong = [hex(v_) for v_, r_ in answers.items() if (r_ == ['return 0']) != (v_ in want)]
+        ctx.ob('C07.R3.whitelist', 'enough_material', not wrong,
+               'material is insufficient exactly for K-K, K-KN, K-KB, KN-K, KB-K (count vectors answered wrongly: %s)' % wrong, site=em.loc())
+        ctx.ob('C07.R3.membership', 'enough_material', not wrong,
+               'enough_material() answers from the position\'s own count vector', site=em.loc())
+    else:
+        arr = [n for n in em.all_nodes() if n['k'] == 'VarDecl' and 'PieceCountVector' in n.get('t', '') and n.get('ext')]
+        got = None
+        if arr:
+            got = arr[0].get('val')
+            if got is None:
+                got = [x.get('cv') for x in kids(strip_casts(kids(arr[0])[0]))]
+        ctx.ob('C07.R3.whitelist', 'notEnoughMaterialPCV', got is not None and sorted(got) == want,
+               'the insufficient-material list evaluates to exactly {K-K, K-KN, K-KB, KN-K, KB-K} in the count-vector encoding (%s)' % got,
+               site=em.loc(arr[0]) if arr else em.loc())
+        finds = [n for n, cfid, nm in em.calls() if nm == 'std::find']
+        rets = [n for n in em.all_nodes() if n['k'] == 'ReturnStmt']
+        okf = len(finds) == 1 and len(rets) == 1 and canon(em, kids(finds[0])[3], inline=False) == 'get_pcv()' and \
+            strip_casts(kids(rets[0])[0]).get('op') == '=='
+        ctx.ob('C07.R3.membership', 'enough_material', okf,
+               'enough_material() is "the position\'s count vector is not in the list" (find(...) == end)', site=em.loc())
     cp = p.fn('engine::create_pcv')
     arms = pack.encoder_arms(cp)
     names = {'wp': 'W_PAWN', 'wn': 'W_KNIGHT', 'wb': 'W_BISHOP', 'wr': 'W_ROOK', 'wq': 'W_QUEEN',
@@ -270,33 +285,60 @@ def check(ctx):
     # ---- R6 attacker kinds of is_in_check ------------------------------------------------------------------------------
     ic = p.fn(POS + '::is_in_check')
     ctx.analysed(ic)
-    terms = []
-    for n in ic.all_nodes():
-        if n['k'] == 'IfStmt':
-            terms.append(canon(ic, kids(n)[0], inline=False).replace(' ', ''))
-    want_terms = {'(pawn_attacks(square_bb(king_sq),side)&pieces(!(side),PAWN))',
-                  '(KNIGHT_MASK[king_sq]&pieces(!(side),KNIGHT))',
-                  '(slider_attack(king_sq,pieces())&pieces(!(side),BISHOP,QUEEN))',
-                  '(slider_attack(king_sq,pieces())&pieces(!(side),ROOK,QUEEN))'}
-    sl = sorted(c['targs'] for n in ic.all_nodes() for c in [n.get('callee')] if c and c['n'] == 'engine::slider_attack')
-    ksq = [n for n in ic.all_nodes() if n['k'] == 'VarDecl' and n.get('name') == 'king_sq']
-    ok = set(terms) == want_terms and sl == ['engine::BISHOP', 'engine::ROOK'] and ksq and \
-        canon(ic, kids(ksq[0])[0], inline=False).replace(' ', '') == 'piece_position(make_piece(side,KING),<default>)'.replace('<default>', '0') or \
-        (set(terms) == want_terms and sl == ['engine::BISHOP', 'engine::ROOK'] and ksq and
-         canon(ic, kids(ksq[0])[0], inline=False).replace(' ', '').startswith('piece_position(make_piece(side,KING)'))
-    ctx.ob('C07.R6.attackers', 'is_in_check', bool(ok),
-           'is_in_check(side) tests pawn, knight, bishop/queen-diagonal and rook/queen-line attackers of the other colour on side\'s king '
-           '(a king never attacks a king in a legal position)', site=ic.loc(), detail={'terms': sorted(terms), 'sliders': sl})
-    # bishop test uses the bishop lookup, rook test the rook lookup (pairing inside each term)
-    pair_ok = True
-    for n in ic.all_nodes():
-        if n['k'] == 'IfStmt':
-            c = kids(n)[0]
-            sl_t = [x['callee']['targs'] for x in walk(c) if x.get('callee', {}).get('n') == 'engine::slider_attack']
-            kinds = [short(x['ref']['n']) for x in walk(c) if x.get('ref', {}).get('k') == 'Enum' and short(x['ref']['n']) in ('BISHOP', 'ROOK')]
-            if sl_t:
-                pair_ok = pair_ok and [short(sl_t[0])] == kinds
-    ctx.ob('C07.R6.slider-pairing', 'is_in_check', pair_ok, 'the diagonal lookup is intersected with bishops/queens, the orthogonal one with rooks/queens', site=ic.loc())
+    # per colour: the maximal intersections "attack set of the king's square  &  enemy pieces of the kinds that attack that way", in
+    # normal form with the definitional helpers read through (pawn_attacks, pieces(c,k1,k2)); then the answer per valuation of
+    # those four tests, whether they are tested one by one or as one union
+    from rules.norm import Norm as _N6, SYNONYMS as _SYN, decision as _dec, cond_value as _cv6, Unknown as _U6
+    bad6 = None
+    for sd in (0, 1):
+        n6 = _N6(ic, env={'side': sd, '__targs__': True})
+        n6.synonyms = _SYN
+        opp = 1 - sd
+        ksq_ = 'piece_position(%d)' % (6 * sd + 6)
+        UL, UR = ('NORTHWEST', 'NORTHEAST') if sd == 0 else ('SOUTHEAST', 'SOUTHWEST')
+
+        def band_(*ps):
+            return '(' + '&'.join(sorted(ps)) + ')'
+
+        def bor_(*ps):
+            return '(' + '|'.join(sorted(ps)) + ')'
+        want6 = {band_(bor_('shift<%s>(square_bb(%s))' % (UL, ksq_), 'shift<%s>(square_bb(%s))' % (UR, ksq_)), 'pieces(%d,1)' % opp),
+                 band_('KNIGHT_MASK[%s]' % ksq_, 'pieces(%d,2)' % opp),
+                 band_(bor_('pieces(%d,3)' % opp, 'pieces(%d,5)' % opp), 'slider_attack<BISHOP>(%s,pieces())' % ksq_),
+                 band_(bor_('pieces(%d,4)' % opp, 'pieces(%d,5)' % opp), 'slider_attack<ROOK>(%s,pieces())' % ksq_)}
+        got6 = set()
+        for n in ic.all_nodes():
+            if n['k'] == 'BinaryOperator' and n.get('op') == '&':
+                par = ic.parent(n)
+                while par is not None and par['k'] in ('ParenExpr', 'ImplicitCastExpr'):
+                    par = ic.parent(par)
+                if par is not None and par['k'] == 'BinaryOperator' and par.get('op') == '&':
+                    continue
+                got6.add(n6.s(n).replace('piece_position(%d,0)' % (6 * sd + 6), ksq_))
+        shape6 = r'\(.*(KNIGHT_MASK|slider_attack<\w+>|shift<\w+>).*\)'
+        if got6 != want6:
+            import re as _re6
+            if not all(_re6.fullmatch(shape6, t) for t in got6):
+                raise AnalysisBroken('C07.R6: is_in_check is built from `%s`, which the rule does not know' % sorted(got6 - want6)[:1])
+            if bad6 is None:
+                bad6 = 'side %d: tests %s, expected %s' % (sd, sorted(got6 - want6), sorted(want6 - got6))
+            continue
+        for hit in [None] + sorted(want6):
+            val = {}
+            for t in want6:
+                val[('truthy', t, True)] = (t == hit)
+                val[t] = 1 if t == hit else 0
+            n6.val = {}
+            try:
+                r_ = _dec(ic, val, n6)
+                ans = _cv6(n6, kids(r_)[0], val) if r_ is not None else None
+            except _U6 as u:
+                raise AnalysisBroken('C07.R6: is_in_check decides on `%s`' % str(u)[:160])
+            if ans != (hit is not None) and bad6 is None:
+                bad6 = 'side %d: with %s the answer is %s' % (sd, 'only `%s` non-empty' % hit if hit else 'no attacker', ans)
+    ctx.ob('C07.R6.attackers', 'is_in_check', bad6 is None,
+           'is_in_check(side) is true exactly when an enemy pawn, knight, bishop/queen on a diagonal or rook/queen on a line attacks '
+           'side\'s king (a king never attacks a king in a legal position)%s' % ('' if bad6 is None else ' — ' + bad6), site=ic.loc())
 
     # ---- R7 consumers -----------------------------------------------------------------------------------------------------
     s = p.fn('engine::Search::search')
